@@ -22,6 +22,32 @@ from fractions import Fraction
 from common import err_kind, frac_token, lst
 
 SIG_LEN_EQ = "C09:shoot:length-eq-maxlen-rejected"
+_HARNESS_EXC = []
+
+
+def robust(fallback):
+    """a runner of the real code must never take the harness down on changed code (an exception in the harness would
+    exit 2 and hide a violation): anything unexpected becomes a visible pseudo-result that disagrees with the model"""
+    def deco(fn):
+        def wrapped(*a, **k):
+            try:
+                return fn(*a, **k)
+            except Exception as e:  # noqa: BLE001
+                _HARNESS_EXC.append(f"{fn.__name__}: {type(e).__name__}: {e}")
+                return fallback(e)
+        wrapped.__name__ = fn.__name__
+        return wrapped
+    return deco
+
+
+def judged(ctx, fn, *a):
+    """evaluate a predicate function; an exception inside it is reported as a broken correspondence, not a crash"""
+    try:
+        return fn(*a)
+    except Exception as e:  # noqa: BLE001
+        _HARNESS_EXC.append(f"{fn.__name__}: {type(e).__name__}: {e}")
+        ctx.disagree({"fn": "harness-exception in " + fn.__name__}, f"{type(e).__name__}: {e}", "predicate could not be evaluated")
+        return [] if fn.__name__ in ("wf_judge", "md_two_judge") else 0
 
 # --------------------------------------------------------------------------- real-code side
 _ENV = {}
@@ -44,10 +70,12 @@ def _imports():
             super().__init__(description="scripted", velocity=False)
             self.kick = 0.0
 
+        conv = float
+
         def calculate(self, system):
             if self.kick is None:              # walk mode: the kick does not move the order parameter
-                return [float(system.order[0])]
-            return [float(self.kick)]
+                return [self.conv(system.order[0])]
+            return [self.conv(self.kick)]
 
     class ScriptedEngine(EngineBase):
         """plays scripted order values through the real add_to_path; no MD, no trajectory files"""
@@ -119,7 +147,7 @@ def _imports():
             else:
                 seq = self.back if reverse else self.forw
             for k, op in enumerate([system.order[0]] + seq):
-                snapshot = {"order": [float(op)], "config": (traj_file, k), "vel_rev": reverse}
+                snapshot = {"order": [self.order_function.conv(op)], "config": (traj_file, k), "vel_rev": reverse}
                 pp = self.snapshot_to_system(system, snapshot)
                 self.used[reverse] += 1
                 status, success, stop, _ = self.add_to_path(path, pp, left, right)
@@ -206,7 +234,7 @@ def mk_old(case):
     p = E["Path"](maxlen=case.get("old_maxlen", 10_000), time_origin=case["oto"])
     for k, o in enumerate(case["old"]):
         s = E["System"]()
-        s.order = [float(o)]
+        s.order = [int(o) if case.get("ints") else float(o)]
         s.config = (E["oldfile"], k)
         s.vel_rev = bool((k * 7 + len(case["old"])) % 3 == 0)
         s.ekin, s.vpot = 0.5 * k, -1.0 * k
@@ -214,7 +242,7 @@ def mk_old(case):
     p.generated = ("ld" if case["ld"] else "sh", 0.0, 0, 0)
     p.status = "ACC"
     p.weights = (1.0, 0.0)
-    p.path_number = 7
+    p.path_number = case.get("pn", 7)
     return p
 
 
@@ -237,21 +265,34 @@ def to_int(x):
     return int(x) if float(x) == int(x) else x
 
 
-def run_real(case):
-    """run the real shoot on one case; returns (canonical line, info dict)"""
+def settings_snapshot(ens):
+    """deep copy of everything in ens_set a move could write (the generator object excluded)"""
+    import copy
+    return copy.deepcopy({k: v for k, v in ens.items() if k != "rgen"})
+
+
+@robust(lambda e: (f"harness-exception:{type(e).__name__}", {"trial": None, "old": None, "acc": None, "status": None, "old_same": True, "file_same": True, "file_events": [], "draws": [], "ens_same": True}))
+def run_real(case, eng=None, tis_set=None):
+    """run the real shoot on one case; returns (canonical line, info dict).
+    `eng` / `tis_set`: long-lived objects shared over a sequence of moves (history runs); default = the module's
+    engine and a fresh settings dict built from the case"""
     E = _imports()
-    eng = E["engine"]
+    eng = E["engine"] if eng is None else eng
     E["enginebase"].counter.count = -1          # reuse the two msg-file names instead of piling up files
+    conv = int if case.get("ints") else float
+    eng.order_function.conv = conv
     old = mk_old(case)
     gen = E["ScriptedGen"](case["idx"], float(Fraction(case["xi"])))
-    eng.script([float(x) for x in case["back"]], [float(x) for x in case["forw"]], float(case["kick"]))
-    tis_set = {"maxlength": case["ML"]}
-    if case["am"] is not None:
-        tis_set["allowmaxlength"] = bool(case["am"])
-    ens = {"interfaces": tuple(float(x) for x in case["intf"]), "tis_set": tis_set, "rgen": gen,
+    eng.script([conv(x) for x in case["back"]], [conv(x) for x in case["forw"]], conv(case["kick"]))
+    if tis_set is None:
+        tis_set = {"maxlength": case["ML"]}
+        if case["am"] is not None:
+            tis_set["allowmaxlength"] = bool(case["am"])
+    ens = {"interfaces": tuple(conv(x) for x in case["intf"]), "tis_set": tis_set, "rgen": gen,
            "ens_name": "001", "mc_move": "sh"}
     if case["sce"] != "-":
         ens["start_cond"] = sc_tuple(case["sce"])
+    ens_before = settings_snapshot(ens)
     before = snapshot(old)
     with open(E["oldfile"], "rb") as f:
         bytes_before = f.read()
@@ -271,6 +312,9 @@ def run_real(case):
     with open(E["oldfile"], "rb") as f:
         info["file_same"] = f.read() == bytes_before
     info["old_same"] = snapshot(old) == before
+    info["before"] = before
+    info["ens_same"] = settings_snapshot(ens) == ens_before
+    eng.order_function.conv = float
     info["draws"] = list(gen.log)
     info["acc"], info["trial"], info["status"] = acc, trial, status
     if trial is not None:
@@ -286,21 +330,29 @@ def run_real(case):
     return line, info
 
 
-def run_real_md(case):
+@robust(lambda e: (f"harness-exception:{type(e).__name__}", {}))
+def run_real_md(case, eng=None, tis_set=None):
     """the same case through the real run_md (→ select_shoot → shoot); start_cond comes from ens_set"""
     E = _imports()
-    tis, eng = E["tis"], E["engine"]
+    tis, eng = E["tis"], (E["engine"] if eng is None else eng)
+    shared = tis_set
     E["enginebase"].counter.count = -1
     old = mk_old(case)
     gen = E["ScriptedGen"](case["idx"], float(Fraction(case["xi"])))
-    eng.script([float(x) for x in case["back"]], [float(x) for x in case["forw"]], float(case["kick"]))
-    tis_set = {"maxlength": case["ML"], "lambda_minus_one": False}
-    if case["am"] is not None:
-        tis_set["allowmaxlength"] = bool(case["am"])
+    conv = int if case.get("ints") else float
+    eng.order_function.conv = conv
+    eng.script([conv(x) for x in case["back"]], [conv(x) for x in case["forw"]], conv(case["kick"]))
+    if shared is None:
+        tis_set = {"maxlength": case["ML"], "lambda_minus_one": False}
+        if case["am"] is not None:
+            tis_set["allowmaxlength"] = bool(case["am"])
+    else:
+        tis_set = shared
+        tis_set["lambda_minus_one"] = False
     intf = [float(x) for x in case["intf"]]
     ens = {"interfaces": tuple(intf), "tis_set": tis_set, "rgen": gen, "ens_name": "001", "mc_move": "sh",
            "start_cond": sc_tuple(case["sc"])}
-    ens_num = 1
+    ens_num = 0 if case["intf"][0] == case["intf"][1] else 1      # [0+] (ensemble index 0) has λ_left = λ_middle
     if case.get("minus"):
         # the [0-] ensemble with λ₋₁: interfaces (λ₋₁, ·, λ0), start_cond (L, R); run_md weighs with minus=True
         ens_num = -1
@@ -320,7 +372,7 @@ def run_real_md(case):
         tis.run_md(md)
         live = picked[ens_num]["traj"]
         st = md["status"]
-        info.update(status=st, live=live, replaced=live is not old, old_same=snapshot(old) == before,
+        info.update(own=ens_num, status=st, live=live, replaced=live is not old, old_same=snapshot(old) == before,
                     ops=[to_int(s.order[0]) for s in live.phasepoints], weights=getattr(live, "weights", None))
         line = f"ok {st} {1 if live is not old else 0} {md['trial_len'][0]} | {lst(info['ops'])}"
     except BadDraw:
@@ -330,6 +382,7 @@ def run_real_md(case):
     finally:
         _AUDIT["on"] = False
         tis.ENGINES = saved
+        eng.order_function.conv = float
     try:
         with open(E["oldfile"], "rb") as f:
             info["file_same"] = f.read() == bytes_before and not _AUDIT["events"]
@@ -429,6 +482,33 @@ def threshold_expect(case):
     return (xi <= ratio, lnew, ratio)
 
 
+def alias_check(ctx, info, rep, prefix):
+    """the returned path must not share frame objects (or their order lists) with the old path: mutate every
+    returned frame in place and look at the old path again. Run LAST (it destroys the returned path)."""
+    trial, old = info.get("trial"), info.get("old")
+    if trial is None or old is None or trial is old or "before" not in info:
+        return 0
+    old_ids = {id(s) for s in old.phasepoints} | {id(s.order) for s in old.phasepoints}
+    shared = [k for k, s in enumerate(trial.phasepoints) if id(s) in old_ids or id(s.order) in old_ids]
+    for s in trial.phasepoints:
+        try:
+            s.order[0] = s.order[0] + 1000
+        except Exception:  # noqa: BLE001
+            pass
+        s.vel_rev = not s.vel_rev
+        s.config = ("mutated-by-harness", -1)
+        s.ekin = s.vpot = 12345.0
+    trial.phasepoints.append(None)
+    changed = snapshot(old) != info["before"]
+    trial.phasepoints.pop()
+    if shared or (changed and info.get("old_same", True)):
+        ctx.fail(prefix + ":returned-path-shares-objects-with-old-path",
+                 f"frames {shared} of the returned path are (or share their order list with) frame objects of the old path; "
+                 f"in-place change of the returned path changed the old one: {changed}", rep)
+        return 1
+    return 0
+
+
 def evaluate(ctx, case, line, info):
     """all property predicates on the real output of one case; returns number of failures raised"""
     n = 0
@@ -454,6 +534,13 @@ def evaluate(ctx, case, line, info):
         if not info["file_same"] or info["file_events"]:
             ctx.fail("C09:shoot:old-files-touched-on-reject", f"status {status}: {info['file_events']}", rep)
             n += 1
+    if not info.get("ens_same", True):
+        if not acc:
+            ctx.fail("C09:shoot:settings-changed-on-reject", f"status {status}: ens_set / tis_set were modified by the move", rep)
+            n += 1
+        else:
+            ctx.disagree({"fn": "shoot", "case": case}, "ens_set / tis_set modified by an accepted move", "model never writes them")
+    n += alias_check(ctx, info, rep, "C09:shoot")
     d = info["draws"]
     L = len(case["old"])
     if not d or d[0] != f"int:1:{L - 1}" or any(x != "random" for x in d[1:]) or len(d) > 2:
@@ -645,6 +732,11 @@ def gen_cases(ctx):
                       sc=rng.choice(("L", "L", "R", "LR")), sce=rng.choice(("-", "-", "L", "R", "LR")),
                       idx=rng.randint(1, L - 2), xi=str(xi), kick=rng.randint(l - 1, r + 1) if rng.random() < 0.1 else rng.randint(l, max(l, r - 1)),
                       back=walk(nb, rng.choice((-1, -1, 1, 0))), forw=walk(nf, rng.choice((-1, 1, 1, 0)))))
+    # falsy-but-valid values / types spread over every block: path number 0, integer-typed order parameters and interfaces
+    for k, c in enumerate(cases):
+        c["pn"] = 0 if k % 2 else 7
+        if k % 7 == 3:
+            c["ints"] = True
     return cases
 
 
@@ -717,6 +809,7 @@ def wf_block(ctx):
     ctx.hit("wf:rejected-move-rewrote-old-path-status/generated (frames intact)", attr_changed)
 
 
+@robust(lambda e: {"status": "harness-exception", "line": f"harness-exception:{type(e).__name__}", "exc": True, "frames_same": True, "file_same": True, "idx": [], "attr_changed": False})
 def run_real_wf(case):
     import random as _random
     E = _imports()
@@ -861,19 +954,22 @@ def wf_pick_ok(case):
     return all((c / n >= float(xi)) == (Fraction(c, n) >= xi) for c in range(1, n + 1))
 
 
-def run_real_wf_scripted(case, via_md=False):
+@robust(lambda e: {"status": "harness-exception", "line": f"harness-exception:{type(e).__name__}", "exc": True, "frames_same": True, "file_same": True, "idx": [], "attr_changed": False})
+def run_real_wf_scripted(case, via_md=False, eng=None, tis_set=None):
     E = _imports()
-    tis, eng = E["tis"], E["engine"]
+    tis, eng = E["tis"], (E["engine"] if eng is None else eng)
+    shared = tis_set
     E["enginebase"].counter.count = -1
     old = mk_old(case)
     l, m, r = case["intf"]
     gen = WfGen(float(Fraction(case["xi"])), case["raws"])
     eng.script_wf([(j["kick"], j["back"], j["forw"]) for j in case["jumps"]], case["eb"], case["ef"])
-    tis_set = {"maxlength": case["ML"]}
-    if case["nj"] is not None:
-        tis_set["n_jumps"] = case["nj"]
-    if case["cap"] is not None:
-        tis_set["interface_cap"] = float(case["cap"])
+    tis_set = {"maxlength": case["ML"]} if shared is None else shared
+    for key, val in (("n_jumps", case["nj"]), ("interface_cap", None if case["cap"] is None else float(case["cap"]))):
+        if val is not None:
+            tis_set[key] = val
+        else:
+            tis_set.pop(key, None)
     ens = {"interfaces": (float(l), float(m), float(r)), "tis_set": tis_set, "rgen": gen, "ens_name": "002",
            "mc_move": "wf", "start_cond": sc_tuple(case["sce"])}
     orig_ext = tis.extender
@@ -884,6 +980,7 @@ def run_real_wf_scripted(case, via_md=False):
     tis.extender = ext_wrapper
     before = snapshot(old)
     before_attrs = {k: v for k, v in old.__dict__.items() if k != "phasepoints"}
+    ens_before = settings_snapshot(ens)
     with open(E["oldfile"], "rb") as f:
         bytes_before = f.read()
     _AUDIT.update(on=True, events=[], watch=E["oldfile"])
@@ -943,6 +1040,14 @@ def run_real_wf_scripted(case, via_md=False):
         rest_before = {k: v for k, v in before_attrs.items() if k not in ("status", "generated")}
         res["attrs_ok"] = ok_status and repr(sorted(rest.items())) == repr(sorted(rest_before.items()))
     res["allowmax_set"] = tis_set.get("allowmaxlength") is True
+    # settings purity: the only write wire_fencing makes is tis_set["allowmaxlength"] = True (recorded observation)
+    ens_after = settings_snapshot(ens)
+    if via_md:
+        ens_after["tis_set"].pop("lambda_minus_one", None)
+    ens_after["tis_set"].pop("allowmaxlength", None)
+    ens_before["tis_set"].pop("allowmaxlength", None)
+    res["ens_ok"] = ens_after == ens_before
+    res["old"], res["before"], res["old_same"] = old, before, after == before
     res["ran_out_ext"] = eng.ran_out_ext
     res["idx"] = list(gen.idx)
     with open(E["oldfile"], "rb") as f:
@@ -961,8 +1066,11 @@ def wf_model_line(case, res, variant="r"):
 
 
 def gen_wf_cases(ctx):
+    return gen_wf_cases_small(ctx, 6000 if ctx.quick else 60000)
+
+
+def gen_wf_cases_small(ctx, n):
     rng = ctx.rng
-    n = 6000 if ctx.quick else 60000
     out = []
     while len(out) < n:
         l = 0
@@ -989,7 +1097,7 @@ def gen_wf_cases(ctx):
                 x += rng.choice((-1, 0, 1, 1, 1) if len(old) < 5 else (-1, -1, 0, 1))
             old.append(x)
         ML = rng.choice((100, 100, rng.randint(3, 14), rng.randint(0, 30)))
-        nj = rng.choice((None, 1, 2, 2, 3, 0))
+        nj = rng.choice((None, 1, 2, 2, 3, 0, 6, 10))
         sc = rng.choice(("L", "L", "L", "R", "LR"))
         sce = sc if rng.random() < 0.9 else rng.choice(("L", "R", "LR"))
 
@@ -1009,7 +1117,17 @@ def gen_wf_cases(ctx):
         ef = walk(rng.randint(l, r), l, r, 9, (-1, 0, 1, 1, 1))
         case = {"old": old, "oto": rng.randint(-5, 5), "ld": rng.random() < 0.2, "intf": intf, "cap": cap, "ML": ML, "nj": nj,
                 "sc": sc, "sce": sce, "xi": str(Fraction(rng.randint(0, 64), 64)), "raws": [rng.randrange(1000) for _ in range(4)],
-                "jumps": jumps, "eb": eb, "ef": ef}
+                "jumps": jumps, "eb": eb, "ef": ef, "pn": rng.choice((0, 7))}
+        # shift everything so that interfaces / the cap / order values hit 0.0 exactly in different roles
+        off = rng.choice((0, 0, -1, -2, -3, -4))
+        if off:
+            case["old"] = [x + off for x in old]
+            case["intf"] = [x + off for x in intf]
+            case["cap"] = None if cap is None else cap + off
+            case["jumps"] = [{"kick": j["kick"] + off, "back": [x + off for x in j["back"]], "forw": [x + off for x in j["forw"]]}
+                             for j in jumps]
+            case["eb"] = [x + off for x in eb]
+            case["ef"] = [x + off for x in ef]
         if wf_pick_ok(case):
             out.append(case)
     return out
@@ -1026,8 +1144,12 @@ def wf_tie(ctx, have_model):
         ctx.count(1, branch="wf-scripted:" + str(res["status"]))
         if have_model and res["line"] != mod[k]:
             ctx.disagree({"fn": "wire_fencing", "variant": "repaired", "wfs": c, "idx": res["idx"]}, res["line"], mod[k])
-        for sig, what in wf_judge(wf_as_judged(c), res):
+        for sig, what in judged(ctx, wf_judge, wf_as_judged(c), res):
             ctx.fail(sig, what, {"wfs": c, "code": res["line"]})
+        if not res.get("ens_ok", True) and not res.get("acc"):
+            ctx.fail("C09:wf:settings-changed-on-reject", f"{res['status']}: ens_set / tis_set changed beyond allowmaxlength=True",
+                     {"wfs": c, "code": res["line"]})
+        judged(ctx, alias_check, ctx, res, {"wfs": c, "code": res["line"]}, "C09:wf")
         if res.get("attr_changed"):
             n_rewrite += 1
         if res.get("allowmax_set"):
@@ -1121,6 +1243,7 @@ def md_two_cases(ctx):
     return cases
 
 
+@robust(lambda e: {"err": f"harness-exception:{type(e).__name__}", "replaced": (False, False), "diff": (None, None), "ret": None})
 def run_md_two(W, c):
     """one zero-swap case through the REAL run_md (→ select_shoot → retis/quantis_swap_zero) with C11's scripted engines"""
     from props import c11
@@ -1218,7 +1341,7 @@ def md_two_block(ctx, have_model):
                 if got != mod[mi]:
                     ctx.disagree({"fn": "run_md commit (two ensembles)", "case": rep, "move_return": l}, got, mod[mi])
                 mi += 1
-            for sig, what in md_two_judge(c, o, W):
+            for sig, what in judged(ctx, md_two_judge, c, o, W):
                 ctx.fail(sig, what, rep)
             if o.get("status") == "ACC" or (o.get("ret") and any(t[1] == "ACC" for t in o["ret"][1])):
                 ctx.distinct(("mdtwo", repr(sorted((a, repr(b)) for a, b in c.items()))))
@@ -1273,6 +1396,86 @@ def md_two_judge(c, o, W=None):
             if not o["live"][0].weights[0] or (not e1["wf"] and not o["live"][1].weights[0]):
                 bad.append(("C09:run_md:zero-weight-in-own-ensemble", f"weights {o['live'][0].weights} {o['live'][1].weights}"))
     return bad
+
+
+# --------------------------------------------------------------------------- call history: long-lived objects
+def history_block(ctx, have_model):
+    """ONE engine object and ONE tis_set dict over a sequence of different moves (shoot, wire_fencing, run_md);
+    every step is compared with the same step on FRESH objects (fresh engine, a copy of the dict as it was before
+    the step) and with the model for the current input — the model is functional, so what is checked here is that
+    the code's result depends on nothing but (input, current content of the settings dict)."""
+    import copy
+    E = _imports()
+    rng = ctx.rng
+    nseq = 60 if ctx.quick else 1200
+    long_eng = E["engine"]
+    fresh_dir = os.path.join(E["tmp"], "exe_fresh")
+    os.makedirs(fresh_dir, exist_ok=True)
+    n_obs = 0
+    wf_pool = gen_wf_cases_n(ctx, nseq * 3)
+    for _s in range(nseq):
+        ML = rng.choice((100, 100, 12, 9))
+        shared = {"maxlength": ML}
+        am0 = rng.choice((None, False))
+        if am0 is not None:
+            shared["allowmaxlength"] = am0
+        fresh_eng = E["ScriptedEngine"](fresh_dir)           # a second engine object alive next to the long-lived one
+        wf_seen = False
+        for _k in range(7):
+            kind = rng.choice(("sh", "sh", "wf", "md"))
+            state = copy.deepcopy(shared)
+            if kind in ("sh", "md"):
+                L = rng.randint(3, 7)
+                nb, nf = rng.randint(1, 4), rng.randint(1, 4)
+                xis = xi_grid(L, 6) or [0.5]
+                sc = rng.choice(("L", "L", "LR"))
+                c = base_case(old=old_ops(rng, L, 0), idx=rng.randint(1, L - 2), xi=str(Fraction(rng.choice(xis))), ML=ML,
+                              am=state.get("allowmaxlength"), sc=sc, sce=sc if kind == "md" else rng.choice(("-", sc)),
+                              pn=rng.choice((0, 3)), back=stream(nb, rng.choice((-1, -1, 1)), "low"),
+                              forw=stream(nf, rng.choice((1, 1, -1, 0)), "high"))
+                if kind == "sh":
+                    l1, i1 = run_real(c, eng=long_eng, tis_set=shared)
+                    l2, i2 = run_real(c, eng=fresh_eng, tis_set=copy.deepcopy(state))
+                    lm = ctx.driver([model_line(c, "r")])[0] if have_model else l1
+                    judged(ctx, evaluate, ctx, c, l1, i1)
+                else:
+                    l1, i1 = run_real_md(c, eng=long_eng, tis_set=shared)
+                    l2, i2 = run_real_md(c, eng=fresh_eng, tis_set=copy.deepcopy(state))
+                    lm = ctx.driver(["runmd" + model_line(c, "r")[5:]])[0] if have_model else l1
+                    if l1.startswith("ok") and i1["status"] != "ACC" and (i1["replaced"] or not i1["old_same"]):
+                        ctx.fail("C09:run_md:old-path-replaced-or-mutated-on-reject", f"history run, status {i1['status']}",
+                                 {"case": c, "via": "run_md", "code": l1})
+                if wf_seen and state.get("allowmaxlength") is True and am0 is not True and "random" not in i1.get("draws", ["random"]):
+                    n_obs += 1
+                rep = {"fn": "history:" + kind, "case": c, "tis_set_before": state}
+            else:
+                c = dict(wf_pool.pop())
+                c["ML"] = ML
+                r1 = run_real_wf_scripted(c, eng=long_eng, tis_set=shared)
+                r2 = run_real_wf_scripted(c, eng=fresh_eng, tis_set=copy.deepcopy(state))
+                l1, l2 = r1["line"], r2["line"]
+                lm = ctx.driver([wf_model_line(c, r1)])[0] if have_model else l1
+                for sig, what in wf_judge(wf_as_judged(c), r1):
+                    ctx.fail(sig, what, {"wfs": c, "code": l1})
+                wf_seen = wf_seen or r1.get("allowmax_set", False)
+                rep = {"fn": "history:wf", "wfs": c, "tis_set_before": state}
+            ctx.count(1, branch="history:" + kind)
+            if l1 != l2:
+                ctx.disagree(rep, l1, l2, "long-lived engine / shared settings dict vs fresh objects with the same content")
+            if have_model and l1 != lm:
+                ctx.disagree(rep, l1, lm, "history run vs model for the current input")
+    ctx.hit("observation:sh-move-after-wf-on-the-same-tis_set-dict-draws-no-ξ (allowmaxlength left True by wire_fencing)", n_obs)
+
+
+def gen_wf_cases_n(ctx, n):
+    class _C:
+        pass
+    sub = _C()
+    sub.rng, sub.quick = ctx.rng, True
+    out = []
+    while len(out) < n:
+        out.extend(c for c in gen_wf_cases_small(sub, min(200, n)) if c["sc"] == c["sce"])
+    return out[:n]
 
 
 # --------------------------------------------------------------------------- add_to_path tie
@@ -1396,7 +1599,7 @@ def run(ctx):
                         mism[v].append(k)
                 if not info["old_same"] and info["acc"]:
                     ctx.disagree({"fn": "shoot", "case": c}, "old path changed by an accepted move", "model never writes it")
-            evaluate(ctx, c, line, info)
+            judged(ctx, evaluate, ctx, c, line, info)
             if threshold_expect(c) is not None:
                 nthr += 1
             if k % 17011 == 5:
@@ -1419,6 +1622,10 @@ def run(ctx):
                 c2 = dict(c)
                 c2["sce"] = c["sc"]
                 md_cases.append(c2)
+        # the [0+] ensemble (index 0, λ_left = λ_middle = 0.0), path number 0, integer-typed order parameters
+        for nb, nf, ints in itertools.product((1, 2, 3), (1, 2, 3), (False, True)):
+            md_cases.append(base_case(intf=[0, 0, 4], kick=1, sc="L", sce="L", xi="1/8", pn=0, ints=ints,
+                                      back=[1] * (nb - 1) + [-1], forw=[2] * (nf - 1) + [5]))
         # the [0-] ensemble with a λ₋₁ interface (incl. λ₋₁ = 0.0): accepted L→L / R→L / … paths must get weight ≠ 0
         n_plus = len(md_cases)
         for lm1 in (0, -2, 1):
@@ -1453,18 +1660,31 @@ def run(ctx):
                 if c.get("minus"):
                     if not (w is not None and len(w) == 1 and w[0] != 0):
                         ctx.fail("C09:run_md:zero-weight-in-own-ensemble", f"[0-] with λ₋₁={c['intf'][0]}: weights {w}", rep)
-                elif set(c["sc"]) != {"L", "R"} and not (w is not None and len(w) == 3 and w[1] != 0):
-                    ctx.fail("C09:run_md:zero-weight-in-own-ensemble", f"weights {w}", rep)
+                elif set(c["sc"]) != {"L", "R"} and not (w is not None and len(w) == 3 and w[info["own"]] != 0):
+                    ctx.fail("C09:run_md:zero-weight-in-own-ensemble", f"weights {w} (own ensemble index {info['own']})", rep)
         # ---- run_md for the two-ensemble moves (plain and QuanTIS zero swap), incl. disagreeing legs
         md_two_block(ctx, have_model)
+        # ---- call history: one engine / one settings dict over sequences of moves vs fresh objects vs model
+        history_block(ctx, have_model)
         # ---- wire fencing: scripted tie against the Lean model, then free-running predicate runs
         wf_tie(ctx, have_model)
         wf_block(ctx)
+        if _HARNESS_EXC:
+            ctx.extra["harness_exceptions"] = _HARNESS_EXC[:20]
+            ctx.disagree({"fn": "harness"}, f"{len(_HARNESS_EXC)} harness exception(s), first: {_HARNESS_EXC[0]}", "none expected")
+            del _HARNESS_EXC[:]
         ctx.exhaustive = False
         ctx.assumptions += [
             "wire_fencing: seeded random scripted cases against Moves.wireFencing (ξ of the segment pick restricted to values "
             "for which the float comparison sum/n >= ξ equals the exact one), plus free-running lattice-walk runs judged by "
             "the predicates only",
+            "call-history runs (one engine object, one tis_set dict over sequences of shoot / wire_fencing / run_md) are "
+            "tie-only: the model is a function of (input, current settings); each step is compared with fresh objects "
+            "holding the same settings and with the model for the current input",
+            "OBSERVATION (call history): after a wire_fencing call the shared tis_set dict carries allowmaxlength=True, so a "
+            "later shooting move on the same dict draws no ξ and uses maxlength as its limit (model: ShootIn.allowMax, theorem "
+            "shoot_allowmax_ignores_xi); with the process-pool runner every job gets a pickled copy, so this does not persist "
+            "between jobs in production",
             "OBSERVATION (not a failure: frames and files stay intact): a wire_fencing move rejected with NSG after the jumps "
             "returns the OLD path object with its .status set to 'NSG' and .generated to ('wf', 9000, 0, len); every "
             "wire_fencing call past the segment pick sets tis_set['allowmaxlength'] = True on the dict shared with the ensemble "
@@ -1563,7 +1783,7 @@ def replay(ctx, obj):
                 if case.get("minus"):
                     bad = (not info["replaced"]) or not (w is not None and len(w) == 1 and w[0] != 0)
                 else:
-                    bad = (not info["replaced"]) or (set(case["sc"]) != {"L", "R"} and not (w is not None and len(w) == 3 and w[1] != 0))
+                    bad = (not info["replaced"]) or (set(case["sc"]) != {"L", "R"} and not (w is not None and len(w) == 3 and w[info["own"]] != 0))
             print("FAILS" if bad else "holds")
             return 1 if bad else 0
         line, info = run_real(case)
